@@ -409,6 +409,18 @@ def body(ctx):
         m = ctx.decide(f"C.step[{pi}]", st.pc, z3.And(*conds), group='C.inductive: each output == pre-state expected, which then increases by one')
         if m is not None:
             violations.append(('inductive', st, m, None))
+        # progress half, as an invariant: the stash never holds the next expected tag once a call's outputs are taken ("each emitted as
+        # soon as every tag up to it has been confirmed") - from every state in which all stashed tags lie ahead of `expected`, for every
+        # confirmation of tags not yet emitted (a single for a tag not stashed, or any multiple reaching at least `expected`)
+        kq2 = z3.BitVec('kq2', 64)
+        inv_pre = z3.ForAll([kq2], z3.Implies(z3.Select(cm.present, kq2), z3.ULT(e, kq2)))
+        dom = z3.And(z3.UGE(tag, e), z3.Or(mult, z3.Not(z3.Select(cm.present, tag))))
+        post_map = sm.fields[1]
+        if hasattr(post_map, 'present'):
+            m2 = ctx.decide(f"C.progress[{pi}]", st.pc, z3.Implies(z3.And(inv_pre, dom), z3.Not(z3.Select(post_map.present, sm.fields[0].bv))),
+                            group='C.inductive (progress): after a call whose outputs are taken, the next expected tag is not sitting in the stash - a confirmed tag is never held back')
+            if m2 is not None:
+                violations.append(('progress', st, m2, None))
 
     # ================= (D) early iterator drop leaves the smoother in the same state as running to completion
     early_pairs = 0
@@ -477,6 +489,12 @@ def body(ctx):
             continue
         cex_in = [(ev(k), ev(t), ev(mf)) for (k, t, mf) in inputs]
         e0 = ev(exp0)
+        if what == 'progress':
+            # the pre-state of the step is reached by a history: a fresh smoother expecting pre.expected, then one single confirmation for
+            # every stashed tag (highest first: each is out of order), then the step's input
+            e0 = ev(e)
+            stash = [(ev(z3.Select(cm.kind, z3.BitVecVal(k_, 64))), k_, False) for k_ in range(e0 + W, e0, -1) if ev(z3.Select(cm.present, z3.BitVecVal(k_, 64)))]
+            cex_in = stash + cex_in
         outs = [(ev(k), ev(t)) for (k, t, _, _) in st.roots.get('outputs', [])]
         role = classify(what, e0, cex_in)
         takes = None
@@ -550,6 +568,8 @@ def classify(what, e0, inputs):
         return 'early-drop-changes-state'
     if what == 'safety':
         return 'safety-arbitrary-history'
+    if what == 'progress':
+        return 'confirmed-tag-held-back'
     # outcome: does a later multiple override an earlier stored single of the other kind?
     for i, (k, t, m) in enumerate(inputs):
         if not m:
